@@ -116,7 +116,8 @@ class Run:
                 raise HarnessFault(f"non-deterministic observation for case {json.dumps(c)[:400]}")
         for n, (c, r) in enumerate(zip(cases, results)):
             # the cases that ran before this one in the same (forked) child, should the violation depend on them
-            self._history = cases[(n // chunk) * chunk: n] if isolate else None
+            # (in the form the driver's replay() takes: a result may carry its own replayable "case")
+            self._history = [results[i].get("case") or cases[i] for i in range((n // chunk) * chunk, n)] if isolate else None
             self.note_result(c, r)
         self._history = None
         for c in cases[:1] + cases[len(cases) // 2: len(cases) // 2 + 1]:
@@ -182,7 +183,7 @@ class Run:
     # ---- finishing
     def finish(self, rule, level="model_checking"):
         wall = time.time() - self.t0
-        confirmed = []
+        confirmed, unconfirmed = [], []
         for cls, path, msgs in self.violations:
             ok = confirm(self.pid, path)
             if not ok and os.path.exists(path[:-5] + ".history.json"):
@@ -192,8 +193,19 @@ class Run:
                 cls = cls + " [depends on earlier cases in the same process]"
                 self.vclasses[cls] = 1
             if not ok:
-                raise HarnessFault(f"violation did not reproduce in a fresh process: {path}")
+                if os.environ.get("VERIF_KEEP"):   # debugging aid: keep the replay files of the run directory
+                    import shutil
+                    shutil.copytree(os.path.dirname(path), os.environ["VERIF_KEEP"], dirs_exist_ok=True)
+                unconfirmed.append((cls, path, msgs))
+                continue
             confirmed.append((cls, path, msgs))
+        if unconfirmed and not confirmed:
+            cls, path, msgs = unconfirmed[0]
+            raise HarnessFault(f"violation did not reproduce in a fresh process: {path} {msgs[:2]}")
+        for cls, path, msgs in unconfirmed:
+            # other violations of this run did reproduce and are reported; this one is not believed and not reported
+            print(f"  unconfirmed (did not reproduce in a fresh process, not reported): {cls}: {str(msgs[:1])[:200]}")
+            self.vclasses.pop(cls, None)
         cov = dict(self.cov)
         cov["distinct_observations"] = len(self.obs)
         cov["distinct_nontrivial"] = len(self.nontrivial)
